@@ -15,6 +15,15 @@ package nodenumaresource
 // The engine also serves C19 (r.Prop == "C19"): the same histories with the real
 // Plugin.PreBind persisting at bind and a restart fork after every bind - see the
 // section "C19" at the end of this file. C06's behaviour is unchanged for its own id.
+//
+// Node-level CPU bind policy (both modes): in a seeded fraction of the runs nodes carry the label
+// node.koordinator.sh/cpu-bind-policy (FullPCPUsOnly / SpreadByPCPUs / None) or report the kubelet static policy with
+// full-pcpus-only, and pods of any QoS class (LS, BE, none, LSR with a non-prod priority) with whole-number CPU
+// requests are scheduled there. Every cycle on such a node runs through the REAL plugin glue: Plugin.PreFilter on
+// the pod object, Plugin.Filter, Plugin.allocate (requestCPUBind, getResourceOptions, allocateWithNominated,
+// tryAllocateFromNode), Plugin.Reserve for the ledger update, Plugin.Unreserve, and (C19) Plugin.PreBind on the same
+// cycle state. The model knows only the API semantics: a pod that holds a CPU set in its resource-status annotation
+// holds those CPUs whatever its QoS class, and a node that demands full cores / spreading gets exactly that.
 
 import (
 	"context"
@@ -61,6 +70,8 @@ const (
 	// history class of the recorded finding: a FullPCPUs CPU-set request on a machine with three or more
 	// sockets and SMT (the cross-socket top-up loop of takeCPUs keeps taking cores from the next socket)
 	nvTagTopUp = "three-or-more-sockets-fullpcpus-topup"
+	// nvTopo.NPol value: no label, the NodeResourceTopology reports the kubelet CPU manager policy static with full-pcpus-only=true
+	nvKubeletFullPCPUs = "kubelet-static-full-pcpus-only"
 )
 
 // ---------------------------------------------------------------- plan types
@@ -83,6 +94,10 @@ type nvTopo struct {
 	Mem   []int64 `json:"mem"`           // memory capacity per NUMA node
 	Ext   []int64 `json:"ext,omitempty"` // capacity of example.com/dev per NUMA node; -1: not reported on that node
 	Strat string  `json:"strat,omitempty"`
+	// node-level CPU bind policy: "" (no label), the value of the label node.koordinator.sh/cpu-bind-policy
+	// (FullPCPUsOnly, SpreadByPCPUs, None), or nvKubeletFullPCPUs (the NodeResourceTopology reports the kubelet's static
+	// CPU manager policy with full-pcpus-only=true). Cycles on a node with a non-empty value run through the real plugin glue.
+	NPol string `json:"npol,omitempty"`
 }
 
 type nvAmt struct {
@@ -98,6 +113,7 @@ type nvPre struct {
 	CPUs []int   `json:"cpus,omitempty"`
 	NUMA []nvAmt `json:"numa,omitempty"`
 	Excl string  `json:"excl,omitempty"`
+	QoS  string  `json:"qos,omitempty"` // see nvOp.QoS
 }
 
 type nvOp struct {
@@ -108,6 +124,7 @@ type nvOp struct {
 	Pre  []nvPre `json:"pre,omitempty"`
 	// pod_create
 	Bind  bool             `json:"bind,omitempty"` // pod asks for a CPU set (LSE/LSR)
+	QoS   string           `json:"qos,omitempty"`  // "": LSR when bind, no QoS label otherwise; LSE: like LSR; LS, BE, none (no label), LSR-mid (LSR with priority class koord-mid): classes that never ask for a CPU set themselves
 	Pol   string           `json:"pol,omitempty"`  // CPU bind policy
 	Reqd  bool             `json:"required,omitempty"`
 	Excl  string           `json:"excl,omitempty"`
@@ -194,6 +211,61 @@ func (t *nvTopo) tracked(dim string) bool {
 	return false
 }
 
+// nodePolicy is the CPU bind policy that every CPU set handed out on the node must satisfy strictly, read off the API
+// documentation of the node label (FullPCPUsOnly: "requires that the scheduler must allocate full physical cores.
+// Equivalent to kubelet CPU manager policy option full-pcpus-only=true"; SpreadByPCPUs: "requires that the scheduler
+// must evenly allocate logical cpus across physical cores"); "" = the node demands nothing.
+func (t *nvTopo) nodePolicy() string {
+	switch t.NPol {
+	case string(apiext.NodeCPUBindPolicyFullPCPUsOnly), nvKubeletFullPCPUs:
+		return string(apiext.CPUBindPolicyFullPCPUs)
+	case string(apiext.NodeCPUBindPolicySpreadByPCPUs):
+		return string(apiext.CPUBindPolicySpreadByPCPUs)
+	}
+	return ""
+}
+
+// viaPlugin: the cycles on this node run through the real plugin glue (PreFilter / Filter / allocate / Reserve / PreBind).
+func (t *nvTopo) viaPlugin() bool { return t.NPol != "" }
+
+// nvCPUSetClass: the QoS classes whose pods ask for a CPU set themselves (LSE / LSR with prod priority).
+func nvCPUSetClass(qos string) bool { return qos == "" || qos == string(apiext.QoSLSE) }
+
+// nvEff is what the API semantics say about one pod on one node: whether it is bound to a CPU set there and which
+// bind policies that CPU set has to satisfy strictly.
+type nvEff struct {
+	bind   bool     // bound to a CPU set on this node
+	byNode bool     // ... only because the node demands it (the pod is not LSE/LSR, or names no bind policy)
+	verify []string // bind policies the CPU set must satisfy strictly: the node's, and the pod's own required one
+	fullP  bool     // the accumulator runs with FullPCPUs (history class of the recorded top-up finding)
+	whole  bool     // the CPU request is a whole number of CPUs
+}
+
+func nvEffective(sp nvSpec, t *nvTopo) nvEff {
+	cpu := sp.Req[nvCPU]
+	e := nvEff{bind: sp.Bind, whole: cpu > 0 && cpu%1000 == 0}
+	np := t.nodePolicy()
+	if np != "" {
+		e.verify = append(e.verify, np)
+		if !e.bind && e.whole {
+			e.bind, e.byNode = true, true
+		}
+	}
+	if sp.Bind && sp.Reqd && sp.Pol != "" && sp.Pol != np {
+		e.verify = append(e.verify, sp.Pol)
+	}
+	switch {
+	case !e.bind:
+	case np != "":
+		e.fullP = np == string(apiext.CPUBindPolicyFullPCPUs)
+	case t.viaPlugin() && (sp.Pol == "" || sp.Pol == string(apiext.CPUBindPolicyDefault)):
+		e.fullP = true // the real PreFilter fills in the scheduler's default bind policy (FullPCPUs, see Execute)
+	default:
+		e.fullP = sp.Pol == string(apiext.CPUBindPolicyFullPCPUs)
+	}
+	return e
+}
+
 func nvQuantity(dim string, v int64) resource.Quantity {
 	switch dim {
 	case nvCPU:
@@ -231,10 +303,19 @@ func (t *nvTopo) options() TopologyOptions {
 		ReservedCPUs: cpuset.NewCPUSet(t.Res...),
 		MaxRefCount:  t.Max,
 	}
+	if t.NPol == nvKubeletFullPCPUs {
+		opts.Policy = nvKubeletPolicy()
+	}
 	for n := 0; n < t.numNodes(); n++ {
 		opts.NUMANodeResources = append(opts.NUMANodeResources, NUMANodeResource{Node: n, Resources: nvToRL(t.capacity(n))})
 	}
 	return opts
+}
+
+// nvKubeletPolicy is what the koordlet reports for a kubelet that runs the static CPU manager policy with full-pcpus-only.
+func nvKubeletPolicy() *apiext.KubeletCPUManagerPolicy {
+	return &apiext.KubeletCPUManagerPolicy{Policy: apiext.KubeletCPUManagerPolicyStatic,
+		Options: map[string]string{apiext.KubeletCPUManagerPolicyFullPCPUsOnlyOption: "true"}}
 }
 
 // ---------------------------------------------------------------- model
@@ -299,6 +380,7 @@ func nvFromReal(pa *PodAllocation) *nvAlloc {
 
 type nvSpec struct {
 	Bind  bool
+	QoS   string
 	Pol   string
 	Reqd  bool
 	Excl  string
@@ -324,6 +406,9 @@ type nvNode struct {
 	topo *nvTopo
 	obj  *corev1.Node
 	nrt  *nrtv1alpha1.NodeResourceTopology // C19: the NodeResourceTopology object of the node (built on first use)
+	// plugin-glue cycles that run with a NUMA hint: the node as it looks while it carries the NUMA topology policy
+	// BestEffort (the policy under which Filter leaves the hint to Reserve; the hint itself is an input of the cycle)
+	objHinted *corev1.Node
 }
 
 type nvEvent struct {
@@ -340,6 +425,7 @@ type nvCycle struct {
 	alloc     *nvAlloc
 	bindFails bool
 	stepsIn   int
+	cs        *framework.CycleState // cycle that runs through the real plugin glue: its cycle state (PreFilter .. PreBind)
 }
 
 type nvSim struct {
@@ -373,6 +459,10 @@ type nvSim struct {
 	pl      *Plugin // real Plugin for PreBind (persistence at bind)
 	forks   int
 	mixed   map[string]map[int]bool // node -> CPUs on which an allocation was added on top of a holder with another exclusive policy
+	// pods (uid) of the history class nvTagExclOther, and the first place where the live record of such a pod was seen
+	// to differ from what was persisted / rebuilt (reported at the last crash point, after every other oracle)
+	exclOther map[string]bool
+	exclDiff  string
 }
 
 // fail reports a violation of one of C06's oracles. Under C19 these oracles are not claimed (they are C06's and
@@ -416,8 +506,18 @@ func (s *nvSim) mkPod(v *nvPodVer) *nvPodVer {
 			Resources: corev1.ResourceRequirements{Requests: nvToRL(v.spec.Req), Limits: nvToRL(v.spec.Req)}}}},
 		Status: corev1.PodStatus{Phase: corev1.PodPending},
 	}
-	if v.spec.Bind {
+	switch v.spec.QoS {
+	case "":
+		if v.spec.Bind {
+			pod.Labels[apiext.LabelPodQoS] = string(apiext.QoSLSR)
+		}
+	case "none":
+	case "LSR-mid":
+		// LSR, but not of the prod priority class: never asks for a CPU set itself
 		pod.Labels[apiext.LabelPodQoS] = string(apiext.QoSLSR)
+		pod.Labels[apiext.LabelPodPriorityClass] = string(apiext.PriorityMid)
+	default: // LSE, LS, BE
+		pod.Labels[apiext.LabelPodQoS] = v.spec.QoS
 	}
 	spec := &apiext.ResourceSpec{PreferredCPUExclusivePolicy: apiext.CPUExclusivePolicy(v.spec.Excl)}
 	if v.spec.Reqd {
@@ -425,7 +525,7 @@ func (s *nvSim) mkPod(v *nvPodVer) *nvPodVer {
 	} else {
 		spec.PreferredCPUBindPolicy = apiext.CPUBindPolicy(v.spec.Pol)
 	}
-	if v.spec.Bind || v.spec.Excl != "" {
+	if v.spec.Bind || v.spec.Excl != "" || v.spec.Pol != "" {
 		if err := apiext.SetResourceSpec(pod, spec); err != nil {
 			s.r.HarnessFail("SetResourceSpec: %v", err)
 		}
@@ -496,11 +596,11 @@ func (s *nvSim) hold(node, uid string, a *nvAlloc) {
 	if s.holders[node] == nil {
 		s.holders[node] = map[string]*nvAlloc{}
 	}
-	if s.c19 && a != nil && s.holders[node][uid] == nil {
+	if old := s.holders[node][uid]; s.c19 && a != nil && (old == nil || nvExclNorm(old.excl) != nvExclNorm(a.excl)) {
 		// the ledger keeps ONE exclusive policy per CPU (the last writer's): remember the CPUs on which pods with
 		// different exclusive policies were stacked (only possible with MaxRefCount > 1)
-		for _, o := range s.holders[node] {
-			if nvExclNorm(o.excl) == nvExclNorm(a.excl) {
+		for ouid, o := range s.holders[node] {
+			if ouid == uid || nvExclNorm(o.excl) == nvExclNorm(a.excl) {
 				continue
 			}
 			for _, c := range a.cpus {
@@ -654,7 +754,19 @@ func (s *nvSim) nodeObj(name string, t *nvTopo) *corev1.Node {
 	if t.Strat != "" {
 		n.Labels[apiext.LabelNodeNUMAAllocateStrategy] = t.Strat
 	}
+	if t.NPol != "" && t.NPol != nvKubeletFullPCPUs {
+		n.Labels[apiext.LabelNodeCPUBindPolicy] = t.NPol
+	}
 	return n
+}
+
+// hintedObj: see nvNode.objHinted.
+func (nd *nvNode) hintedObj() *corev1.Node {
+	if nd.objHinted == nil {
+		nd.objHinted = nd.obj.DeepCopy()
+		nd.objHinted.Labels[apiext.LabelNUMATopologyPolicy] = string(apiext.NUMATopologyPolicyBestEffort)
+	}
+	return nd.objHinted
 }
 
 func (s *nvSim) opNodeAdd(op *nvOp) bool {
@@ -687,12 +799,16 @@ func (s *nvSim) opNodeAdd(op *nvOp) bool {
 		a.excl = pre.Excl
 		req := map[string]int64{nvCPU: int64(len(a.cpus)) * 1000}
 		v := s.mkPod(&nvPodVer{name: pre.P, uid: "u-" + pre.P, node: op.N, alloc: a, rv: s.bump(),
-			spec: nvSpec{Bind: len(a.cpus) > 0, Pol: string(apiext.CPUBindPolicyFullPCPUs), Excl: pre.Excl, Req: req}})
+			spec: nvSpec{Bind: len(a.cpus) > 0 && nvCPUSetClass(pre.QoS), QoS: pre.QoS, Pol: string(apiext.CPUBindPolicyFullPCPUs), Excl: pre.Excl, Req: req}})
 		s.pods[pre.P] = v
 		s.h.OnAdd(v.obj, true)
 		s.hold(op.N, v.uid, a)
-		s.r.Event("pre %s on %s %s", pre.P, op.N, a)
+		s.r.Event("pre %s on %s qos=%s %s", pre.P, op.N, pre.QoS, a)
 		s.r.Probe("pre-existing-pod-add")
+		if len(a.cpus) > 0 && !nvCPUSetClass(pre.QoS) {
+			// a pod of another QoS class that holds a CPU set (an earlier scheduler bound it under a node-level CPU bind policy)
+			s.r.Probe("nodepol:pre-existing-pod-of-another-qos-holds-cpuset")
+		}
 	}
 	return true
 }
@@ -728,7 +844,8 @@ func (s *nvSim) opPodCreate(op *nvOp) bool {
 	if op.P == "" || s.pods[op.P] != nil || op.Req[nvCPU] <= 0 {
 		return false
 	}
-	if op.Bind && op.Req[nvCPU]%1000 != 0 {
+	bind := op.Bind && nvCPUSetClass(op.QoS) // only LSE / LSR (prod) pods ask for a CPU set themselves
+	if bind && op.Req[nvCPU]%1000 != 0 {
 		return false // PreFilter rejects fractional CPU requests of CPU-set pods
 	}
 	for _, v := range op.Req {
@@ -744,11 +861,11 @@ func (s *nvSim) opPodCreate(op *nvOp) bool {
 			return false // names are not reused while events of an earlier pod are in flight
 		}
 	}
-	v := s.mkPod(&nvPodVer{name: op.P, uid: "u-" + op.P, rv: s.bump(), spec: nvSpec{Bind: op.Bind, Pol: op.Pol, Reqd: op.Reqd && op.Bind, Excl: op.Excl, Req: op.Req,
-		Resv: op.Resv && op.Bind && op.Owner == "", RPol: op.RPol, Owner: op.Owner}})
+	v := s.mkPod(&nvPodVer{name: op.P, uid: "u-" + op.P, rv: s.bump(), spec: nvSpec{Bind: bind, QoS: op.QoS, Pol: op.Pol, Reqd: op.Reqd && bind, Excl: op.Excl, Req: op.Req,
+		Resv: op.Resv && bind && op.Owner == "", RPol: op.RPol, Owner: op.Owner}})
 	s.pods[op.P] = v
 	s.emit(nvEvent{typ: "pod", kind: "add", new: v})
-	s.r.Event("pod_create %s bind=%v pol=%s req=%v excl=%s {%s}", op.P, op.Bind, op.Pol, op.Reqd, op.Excl, nvFmt(op.Req))
+	s.r.Event("pod_create %s bind=%v qos=%s pol=%s req=%v excl=%s {%s}", op.P, bind, op.QoS, op.Pol, op.Reqd, op.Excl, nvFmt(op.Req))
 	return true
 }
 
@@ -938,7 +1055,14 @@ func (s *nvSim) opSched(op *nvOp) bool {
 			return false
 		}
 	}
-	if !pod.spec.Bind && hint == nil {
+	plug := t.viaPlugin()           // the cycle runs through the real plugin glue
+	eff := nvEffective(pod.spec, t) // what the API semantics say about this pod on this node
+	if plug {
+		if pod.spec.Resv || len(op.Victims) > 0 {
+			return false // reservations and preemption dry runs are not modelled on nodes with a node-level CPU bind policy
+		}
+		s.r.Probe("nodepol:cycle-through-plugin-glue")
+	} else if !pod.spec.Bind && hint == nil {
 		return false // Plugin.allocate returns before Allocate: nothing to do for this pod on this node
 	}
 	if pod.spec.Resv && hint != nil {
@@ -975,7 +1099,7 @@ func (s *nvSim) opSched(op *nvOp) bool {
 		}
 	}
 
-	if pod.spec.Bind && pod.spec.Pol == string(apiext.CPUBindPolicyFullPCPUs) && t.S >= 3 && t.T >= 2 {
+	if eff.fullP && t.S >= 3 && t.T >= 2 {
 		s.tagC06(nvTagTopUp)
 	}
 
@@ -987,7 +1111,7 @@ func (s *nvSim) opSched(op *nvOp) bool {
 	var resv *nvPodVer
 	var resvCPUs, victimCPUs map[int]bool
 	var victims []string // uids
-	if !s.c19 {
+	if !s.c19 && !plug {
 		if r := s.resvAvail[pod.spec.Owner]; pod.spec.Owner != "" && r != nil && r.node == op.N && !s.holders[op.N][r.uid].empty() {
 			resv = r
 			resvCPUs = map[int]bool{}
@@ -1052,14 +1176,24 @@ func (s *nvSim) opSched(op *nvOp) bool {
 
 	var pa *PodAllocation
 	var status *fwktype.Status
-	if s.c19 {
+	var cs *framework.CycleState
+	switch {
+	case plug:
+		pa, status, cs = s.allocateViaPluginGlue(pod, nd, hint)
+	case s.c19:
 		pa, status = s.rm.Allocate(nd.obj, pod.obj, opts)
-	} else {
+	default:
 		pa, status = s.allocateAsPlugin(op, pod, nd, opts, resv, victims, cntFor)
 	}
 	ok := status.IsSuccess()
 	s.oracleEval()
 	if ok && pa == nil {
+		if plug && !eff.bind && hint == nil {
+			// neither a CPU set nor NUMA-level amounts are due to this pod on this node: the plugin has nothing to record
+			s.r.Event("allocate %s on %s: nothing to allocate", op.P, op.N)
+			s.r.Probe("nodepol:nothing-to-allocate")
+			return true
+		}
 		s.fail("allocate", "nil-result", "Allocate(%s on %s) succeeded without an allocation", op.P, op.N)
 		return true
 	}
@@ -1070,6 +1204,9 @@ func (s *nvSim) opSched(op *nvOp) bool {
 	}
 	desc := fmt.Sprintf("pod %s{bind=%v pol=%s required=%v excl=%s %s} node %s{%dx%dx%dx%d lay=%d res=%v max=%d} hint=%v",
 		op.P, pod.spec.Bind, pod.spec.Pol, pod.spec.Reqd, pod.spec.Excl, nvFmt(pod.spec.Req), op.N, t.S, t.NPS, t.C, t.T, t.Lay, t.Res, t.Max, hint)
+	if plug || pod.spec.QoS != "" {
+		desc += fmt.Sprintf(" (pod QoS %q, node CPU bind policy %q: bound to a CPU set here=%v, must strictly satisfy %v; through the plugin glue=%v)", pod.spec.QoS, t.NPol, eff.bind, eff.verify, plug)
+	}
 	if pod.spec.Resv {
 		desc += " (reserve pod)"
 	}
@@ -1081,16 +1218,20 @@ func (s *nvSim) opSched(op *nvOp) bool {
 	}
 
 	if !ok {
-		if pod.spec.Bind {
+		if eff.bind {
 			s.r.Probe("alloc-cpu-fail")
-			if hint == nil && !pod.spec.Reqd && freeCPUs >= need {
+			if hint == nil && len(eff.verify) == 0 && freeCPUs >= need {
 				s.r.Probe("cpu-fail-with-enough-free(not-claimed)")
 			}
 		}
 		if hint != nil {
 			s.r.Probe("alloc-numa-fail")
 		}
-		if hint != nil && !pod.spec.Bind && resv == nil {
+		if hint != nil && !eff.bind && t.nodePolicy() != "" && !eff.whole {
+			// precondition of the node's policy, not of the NUMA split: a node that demands full cores / spreading admits
+			// only whole-number CPU requests; the completeness claim is suspended for exactly these pods (counted)
+			s.r.Probe("nodepol:numa-complete-suspended(fractional cpu request on a node with a CPU bind policy)")
+		} else if hint != nil && !eff.bind && resv == nil {
 			// (a pod that allocates out of a reservation is confined by the reservation's policy: no claim)
 			// COMPLETENESS (freely divisible resources, no CPU binding): the hinted nodes together have enough free of
 			// everything that is asked for => must succeed. A dimension the node does not report per NUMA node has
@@ -1137,14 +1278,17 @@ func (s *nvSim) opSched(op *nvOp) bool {
 	}
 
 	// ---- CPU set oracles
-	if !pod.spec.Bind {
+	if !eff.bind {
 		if len(got.cpus) != 0 {
 			s.fail("cpu-unrequested", "", "pod without CPU binding got CPUs %v; %s", got.cpus, desc)
 		}
 	} else {
 		s.r.Probe("alloc-cpu-ok")
+		if eff.byNode {
+			s.r.Probe("nodepol:cpuset-because-the-node-demands-it:qos=" + pod.spec.QoS)
+		}
 		if len(got.cpus) != need {
-			s.fail("cpu-count", nvPolSig(pod.spec), "asked for %d CPUs, got %d (%v); %s", need, len(got.cpus), got.cpus, desc)
+			s.fail("cpu-count", nvPolSig(pod.spec, t), "asked for %d CPUs, got %d (%v); %s", need, len(got.cpus), got.cpus, desc)
 		}
 		shared := false
 		for _, c := range got.cpus {
@@ -1183,24 +1327,30 @@ func (s *nvSim) opSched(op *nvOp) bool {
 		if need == freeCPUs {
 			s.r.Probe("alloc-takes-all-free-cpus")
 		}
-		if pod.spec.Reqd {
+		for _, pol := range eff.verify {
 			perCore := map[int]int{}
 			for _, c := range got.cpus {
 				p, _ := t.pos(c)
 				perCore[p.core]++
 			}
-			switch pod.spec.Pol {
+			// whose demand it is goes into the signature: the pod's required policy, or the node's
+			by := ""
+			if pol == t.nodePolicy() {
+				by = "-node-policy"
+				s.r.Probe("nodepol:node-policy-verified:" + pol)
+			}
+			switch pol {
 			case string(apiext.CPUBindPolicyFullPCPUs):
-				for core, k := range perCore {
-					if k != t.T {
-						s.fail("policy", "fullpcpus", "required FullPCPUs reported satisfied but core %d contributes %d of its %d CPUs: %v; %s", core, k, t.T, got.cpus, desc)
+				for _, core := range nvSortedInts(perCore) {
+					if k := perCore[core]; k != t.T {
+						s.fail("policy", "fullpcpus"+by, "required FullPCPUs reported satisfied but core %d contributes %d of its %d CPUs: %v; %s", core, k, t.T, got.cpus, desc)
 					}
 				}
 				s.r.Probe("required-fullpcpus-verified")
 			case string(apiext.CPUBindPolicySpreadByPCPUs):
-				for core, k := range perCore {
-					if k != 1 {
-						s.fail("policy", "spreadbypcpus", "required SpreadByPCPUs reported satisfied but core %d contributes %d CPUs: %v; %s", core, k, got.cpus, desc)
+				for _, core := range nvSortedInts(perCore) {
+					if k := perCore[core]; k != 1 {
+						s.fail("policy", "spreadbypcpus"+by, "required SpreadByPCPUs reported satisfied but core %d contributes %d CPUs: %v; %s", core, k, got.cpus, desc)
 					}
 				}
 				s.r.Probe("required-spread-verified")
@@ -1215,7 +1365,7 @@ func (s *nvSim) opSched(op *nvOp) bool {
 		}
 	} else {
 		s.r.Probe("alloc-numa-ok")
-		if pod.spec.Bind {
+		if eff.bind {
 			s.r.Probe("alloc-cpu+numa-ok")
 		}
 		inHint := map[int]bool{}
@@ -1288,7 +1438,7 @@ func (s *nvSim) opSched(op *nvOp) bool {
 	if resv != nil {
 		got.via = resv.uid
 	}
-	s.cycle = &nvCycle{pod: pod, node: op.N, real: pa, alloc: got, bindFails: op.BindFails}
+	s.cycle = &nvCycle{pod: pod, node: op.N, real: pa, alloc: got, bindFails: op.BindFails, cs: cs}
 	delete(s.queue, op.P)
 	s.assumed[op.P] = true
 	return true
@@ -1429,7 +1579,64 @@ func (s *nvSim) allocateAsPlugin(op *nvOp, pod *nvPodVer, nd *nvNode, opts *Reso
 	return tryAllocateFromNode(s.rm, nil, restore, opts, pod.obj, nd.obj)
 }
 
-func nvPolSig(sp nvSpec) string {
+// allocateViaPluginGlue runs the scheduling half of one cycle through the real plugin: Plugin.PreFilter on the pod
+// object (QoS class, priority class, resource spec), Plugin.Filter on the node (requestCPUBind with the node's CPU
+// bind policy, SMT alignment, policy conflicts, the allocation dry run), then Plugin.allocate, the first half of
+// Plugin.Reserve (getResourceOptions -> allocateWithNominated -> tryAllocateFromNode -> resourceManager.Allocate). A
+// NUMA hint is an input of the cycle as everywhere in this engine (topology manager stubbed): the cycle then sees the
+// node with the NUMA topology policy BestEffort - the policy under which Filter leaves the hint to Reserve - and the
+// affinity store of the cycle state holds the hint. The allocation stays in the cycle state (preFilterState.allocation)
+// for Reserve / Unreserve / PreBind.
+func (s *nvSim) allocateViaPluginGlue(pod *nvPodVer, nd *nvNode, hint []int) (*PodAllocation, *fwktype.Status, *framework.CycleState) {
+	ctx := context.TODO()
+	cs := framework.NewCycleState()
+	if _, st := s.pl.PreFilter(ctx, cs, pod.obj, nil); !st.IsSuccess() {
+		s.r.Probe("nodepol:prefilter-refused")
+		return nil, st, nil
+	}
+	node, numaPolicy := nd.obj, apiext.NUMATopologyPolicyNone
+	if hint != nil {
+		mask, err := bitmask.NewBitMask(hint...)
+		if err != nil {
+			s.r.HarnessFail("bitmask: %v", err)
+		}
+		node, numaPolicy = nd.hintedObj(), apiext.NUMATopologyPolicyBestEffort
+		topologymanager.GetStore(cs).SetAffinity(nd.name, topologymanager.NUMATopologyHint{NUMANodeAffinity: mask})
+	}
+	ni := framework.NewNodeInfo()
+	ni.SetNode(node)
+	if st := s.pl.Filter(ctx, cs, pod.obj, ni); !st.IsSuccess() {
+		class := "other"
+		switch st.Message() {
+		case ErrSMTAlignmentError:
+			class = "smt-alignment"
+		case ErrCPUBindPolicyConflict:
+			class = "bind-policy-conflict"
+		case ErrInvalidRequestedCPUs:
+			class = "fractional-cpu-request"
+		case ErrNotEnoughCPUs:
+			class = "not-enough-cpus"
+		case ErrInvalidCPUTopology:
+			class = "invalid-topology"
+		}
+		s.r.Probe("nodepol:filter-refused:" + class)
+		return nil, st, nil
+	}
+	if st := s.pl.allocate(ctx, cs, pod.obj, node, numaPolicy); !st.IsSuccess() {
+		s.r.Probe("nodepol:allocate-refused-after-filter-passed")
+		return nil, st, nil
+	}
+	state, st := getPreFilterState(cs)
+	if !st.IsSuccess() {
+		s.r.HarnessFail("cycle state lost: %s", st.Message())
+	}
+	return state.allocation, nil, cs
+}
+
+func nvPolSig(sp nvSpec, t *nvTopo) string {
+	if np := t.nodePolicy(); np != "" {
+		return "node-policy-" + np
+	}
 	p := sp.Pol
 	if p == "" {
 		p = "none"
@@ -1534,7 +1741,14 @@ func (s *nvSim) commit() {
 	if c.stepsIn > 0 {
 		s.r.Probe("events-between-allocate-and-update")
 	}
-	s.rm.Update(c.node, c.real)
+	if c.cs != nil {
+		// the second half of the real Plugin.Reserve (the allocation is in the cycle state): resourceManager.Update
+		if st := s.pl.Reserve(context.TODO(), c.cs, c.pod.obj, c.node); !st.IsSuccess() {
+			s.r.HarnessFail("Reserve with an allocation in the cycle state failed: %s", st.Message())
+		}
+	} else {
+		s.rm.Update(c.node, c.real)
+	}
 	if s.known[c.node] != nil {
 		s.hold(c.node, c.pod.uid, c.alloc)
 	} else {
@@ -1564,7 +1778,11 @@ func (s *nvSim) bindResult(i int) {
 	}
 	if c.bindFails || cur == nil || cur.node != "" || s.nodes[c.node] == nil || preBindFailed {
 		// Plugin.Unreserve
-		s.rm.Release(c.node, types.UID(c.pod.uid))
+		if c.cs != nil {
+			s.pl.Unreserve(context.TODO(), c.cs, c.pod.obj, c.node)
+		} else {
+			s.rm.Release(c.node, types.UID(c.pod.uid))
+		}
 		s.unhold(c.node, c.pod.uid)
 		delete(s.assumed, c.pod.name)
 		switch {
@@ -1584,6 +1802,12 @@ func (s *nvSim) bindResult(i int) {
 	}
 	nv := *cur
 	nv.node, nv.alloc, nv.rv = c.node, c.alloc, s.bump()
+	if s.exclOther[c.pod.uid] {
+		// what the API object says: the allocation, with the exclusive policy its resource spec names
+		a := *c.alloc
+		a.excl = c.pod.spec.Excl
+		nv.alloc = &a
+	}
 	nv.ann = persisted
 	s.pods[c.pod.name] = s.mkPod(&nv)
 	s.emit(nvEvent{typ: "pod", kind: "update", old: cur, new: s.pods[c.pod.name]})
@@ -1865,10 +2089,14 @@ func (nvEngine) Execute(r *sim.Run) {
 		nodeAllocations:        map[string]*NodeAllocation{},
 	}
 	s.h = &podEventHandler{resourceManager: s.rm}
+	// the real plugin: PreBind under C19; the whole glue for the cycles on nodes with a node-level CPU bind policy.
+	// The scheduler's default bind policy is a configuration input of the harness.
+	s.pl = &Plugin{handle: &nvHandle{snapshot: &nvSnapshot{s: s}}, resourceManager: s.rm, topologyOptionsManager: s.tm,
+		pluginArgs: &schedulingconfig.NodeNUMAResourceArgs{DefaultCPUBindPolicy: schedulingconfig.CPUBindPolicyFullPCPUs}}
 	if r.Prop == "C19" {
 		s.c19 = true
 		s.mixed = map[string]map[int]bool{}
-		s.pl = &Plugin{handle: &nvHandle{snapshot: &nvSnapshot{s: s}}, resourceManager: s.rm, topologyOptionsManager: s.tm}
+		s.exclOther = map[string]bool{}
 	}
 	r.Sample("cfg %+v", s.cfg)
 
@@ -1965,6 +2193,16 @@ func (nvEngine) Execute(r *sim.Run) {
 }
 
 // ---------------------------------------------------------------- generation
+
+// nvGenNodePolicy draws the node-level CPU bind policy of a node in a run that has such nodes.
+func nvGenNodePolicy(g *sim.Rng) string {
+	return g.Pick("FullPCPUsOnly", "FullPCPUsOnly", "FullPCPUsOnly", "SpreadByPCPUs", "SpreadByPCPUs", nvKubeletFullPCPUs, "None", "")
+}
+
+// nvGenOtherQoS draws a QoS class whose pods never ask for a CPU set themselves.
+func nvGenOtherQoS(g *sim.Rng) string {
+	return g.Pick("LS", "LS", "LS", "LS", "none", "BE", "LSR-mid")
+}
 
 func nvGenTopo(g *sim.Rng, thorough, wide bool) *nvTopo {
 	t := &nvTopo{S: g.PickInt(1, 1, 2), NPS: g.PickInt(1, 2, 2, 4), C: g.PickInt(1, 2, 2, 3, 4, 4, 5, 6, 7, 8), T: g.PickInt(1, 2, 2)}
@@ -2106,6 +2344,34 @@ func nvGenSpec(g *sim.Rng, t *nvTopo, hint []int) nvOp {
 			op.Req[nvCPU] = (op.Req[nvCPU]/1000 + 1) * 1000
 		}
 	}
+	if t.NPol != "" && g.Bool(0.6) {
+		// a node with a node-level CPU bind policy: pods of the other QoS classes, mostly with whole-number CPU requests
+		// (often a multiple of the threads per core); some carry a resource spec although nothing reads it for their class
+		op.QoS, op.Bind, op.Reqd = nvGenOtherQoS(g), false, false
+		if !g.Bool(0.12) {
+			total := max(1, int(capSum[nvCPU]/1000))
+			n := g.Range(1, min(total, 8))
+			switch g.Intn(6) {
+			case 0, 1, 2:
+				n = t.T * g.Range(1, max(1, min(total, 8)/t.T))
+			case 3:
+				n = g.Range(1, total)
+			}
+			op.Req[nvCPU] = int64(n) * 1000
+		} else if op.Req[nvCPU]%1000 == 0 {
+			op.Req[nvCPU] += 1 + g.I64n(999)
+		}
+		if !g.Bool(0.15) {
+			op.Pol, op.Excl = "", ""
+		} else {
+			op.Pol = g.Pick("", "FullPCPUs", "SpreadByPCPUs")
+			op.Excl = g.Pick("", "PCPULevel", "NUMANodeLevel")
+		}
+	} else if t.NPol == "" && !op.Bind && g.Bool(0.05) {
+		op.QoS = nvGenOtherQoS(g) // the class makes no difference on a node without a policy
+	} else if op.Bind && g.Bool(0.1) {
+		op.QoS = "LSE"
+	}
 	if hint != nil || g.Bool(0.3) {
 		if g.Bool(0.8) {
 			op.Req[nvMem] = amount(capSum[nvMem])
@@ -2167,6 +2433,16 @@ func nvGenPre(g *sim.Rng, t *nvTopo, names func() string) []nvPre {
 				}
 			}
 		}
+		// pods of other QoS classes that hold a CPU set: bound by an earlier scheduler under a node-level CPU bind policy
+		// (on a node that has none now: the label was taken off since)
+		if pq := 0.04; len(pre.CPUs) > 0 {
+			if t.NPol != "" {
+				pq = 0.6
+			}
+			if g.Bool(pq) {
+				pre.QoS = nvGenOtherQoS(g)
+			}
+		}
 		if nvPreAlloc(t, &pre, cnt, used) != nil {
 			out = append(out, pre)
 		}
@@ -2188,8 +2464,12 @@ func (nvEngine) Generate(p *sim.Plan, g *sim.Rng) {
 	var pods []string
 	np := 0
 	podName := func() string { np++; return fmt.Sprintf("p%d", np-1) }
+	polRun := g.Bool(0.3) // this run has nodes with a node-level CPU bind policy
 	addNode := func(name string) {
 		t := nvGenTopo(g, thorough, ext)
+		if polRun && g.Bool(0.8) {
+			t.NPol = nvGenNodePolicy(g)
+		}
 		op := nvOp{K: "node_add", N: name, Topo: t}
 		if g.Bool(0.5) {
 			op.Pre = nvGenPre(g, t, podName)
@@ -2237,7 +2517,7 @@ func (nvEngine) Generate(p *sim.Plan, g *sim.Rng) {
 			case resvRun && (y < 6 || (len(resvs) == 0 && y < 30)):
 				// a reservation: its reserve pod asks for a CPU set and is scheduled like a pod
 				n := liveNode()
-				if n == "" {
+				if n == "" || nodes[n].NPol != "" {
 					break
 				}
 				t := nodes[n]
@@ -2252,7 +2532,7 @@ func (nvEngine) Generate(p *sim.Plan, g *sim.Rng) {
 				// an owner pod of a reservation, scheduled onto the reservation's node
 				rv := resvs[g.Intn(len(resvs))]
 				t := nodes[rv.node]
-				if t == nil {
+				if t == nil || t.NPol != "" {
 					break
 				}
 				var hint []int
@@ -2260,7 +2540,7 @@ func (nvEngine) Generate(p *sim.Plan, g *sim.Rng) {
 					hint = nvGenHint(g, t)
 				}
 				op := nvGenSpec(g, t, hint)
-				op.P, op.Owner, op.Bind = podName(), rv.name, true
+				op.P, op.Owner, op.Bind, op.QoS = podName(), rv.name, true, ""
 				if g.Bool(0.85) {
 					op.Req[nvCPU] = int64(g.Range(1, max(1, rv.cpus-1))) * 1000
 				} else {
@@ -2277,7 +2557,7 @@ func (nvEngine) Generate(p *sim.Plan, g *sim.Rng) {
 			case y >= 94 && len(pods) > 0:
 				// a preemption dry run: the node is evaluated with some pods removed
 				n := liveNode()
-				if n == "" {
+				if n == "" || nodes[n].NPol != "" {
 					break
 				}
 				t := nodes[n]
@@ -2410,6 +2690,12 @@ func (nvEngine) Generate(p *sim.Plan, g *sim.Rng) {
 const (
 	nvTagStartup = "pod-add-before-topology-at-startup"
 	nvTagStacked = "cpu-stacked-with-different-exclusive-policies"
+	// history class of the finding recorded for C19: PreBind persisted an allocation for a pod that is not LSE/LSR
+	// (prod) but carries a preferred CPU exclusive policy in its resource spec. PreFilter reads the exclusive policy
+	// only for LSE/LSR pods, so Reserve allocates and records the pod without one, while the pod event handler reads
+	// it from the annotation for every pod: the restarted scheduler (and the live one, from the pod's next update
+	// event on) records the pod's CPUs as exclusive.
+	nvTagExclOther = "exclusive-policy-in-the-resource-spec-of-a-pod-that-is-not-lse-lsr"
 )
 
 // ---- framework stubs for the real Plugin.PreBind
@@ -2459,22 +2745,27 @@ func (h *nvHandle) SnapshotSharedLister() fwktype.SharedLister { return h.snapsh
 // Reserve leave behind, and returns the annotations it wrote.
 func (s *nvSim) preBind(c *nvCycle, cur *nvPodVer) (map[string]string, bool) {
 	sp := c.pod.spec
-	reqs := nvToRL(sp.Req)
-	st := &preFilterState{
-		requestCPUBind: sp.Bind,
-		requests:       reqs,
-		numCPUsNeeded:  int(sp.Req[nvCPU] / 1000),
-		allocation:     c.real,
-	}
-	if sp.Bind {
-		st.preferredCPUBindPolicy = schedulingconfig.CPUBindPolicy(sp.Pol)
-		if sp.Reqd {
-			st.requiredCPUBindPolicy = schedulingconfig.CPUBindPolicy(sp.Pol)
+	cs := c.cs // a cycle that ran through the plugin glue carries its own cycle state
+	if cs == nil {
+		reqs := nvToRL(sp.Req)
+		st := &preFilterState{
+			requestCPUBind: sp.Bind,
+			requests:       reqs,
+			numCPUsNeeded:  int(sp.Req[nvCPU] / 1000),
+			allocation:     c.real,
 		}
-		st.preferredCPUExclusivePolicy = schedulingconfig.CPUExclusivePolicy(sp.Excl)
+		if sp.Bind {
+			st.preferredCPUBindPolicy = schedulingconfig.CPUBindPolicy(sp.Pol)
+			if sp.Reqd {
+				st.requiredCPUBindPolicy = schedulingconfig.CPUBindPolicy(sp.Pol)
+			}
+			st.preferredCPUExclusivePolicy = schedulingconfig.CPUExclusivePolicy(sp.Excl)
+		}
+		cs = framework.NewCycleState()
+		cs.Write(stateKey, st)
+	} else {
+		s.r.Probe("c19:prebind-on-the-cycle-state-of-the-plugin-glue")
 	}
-	cs := framework.NewCycleState()
-	cs.Write(stateKey, st)
 	obj := cur.obj.DeepCopy()
 	if status := s.pl.PreBind(context.TODO(), cs, obj, c.node); !status.IsSuccess() {
 		s.r.Event("prebind %s on %s failed: %s", c.pod.name, c.node, status.Message())
@@ -2495,6 +2786,20 @@ func (s *nvSim) preBind(c *nvCycle, cur *nvPodVer) (map[string]string, bool) {
 		s.r.Fail("persisted-vs-allocation", "cpuset-string", "pod %s on %s: allocated CPUs %v, persisted cpuset %q parses to %v (err %v)", c.pod.name, c.node, c.alloc.cpus, back.CPUSet, cpus.ToSlice(), err)
 	}
 	spec, err := apiext.GetResourceSpec(obj.Annotations)
+	if c.cs != nil && !sp.Bind && sp.Excl != "" {
+		// history class of the recorded finding (see nvTagExclOther): the difference is remembered and reported at the
+		// last crash point, so that the rest of the run is still explored
+		s.r.Tag(nvTagExclOther)
+		s.r.Probe("c19:prebind-for-a-pod-that-is-not-lse-lsr-with-an-exclusive-policy-in-its-spec")
+		s.exclOther[c.pod.uid] = true
+		if err == nil && string(spec.PreferredCPUExclusivePolicy) != string(c.real.CPUExclusivePolicy) {
+			if s.exclDiff == "" {
+				s.exclDiff = fmt.Sprintf("pod %s (QoS %q, not LSE/LSR) on %s: Reserve recorded the allocation %s with exclusive policy %q, the persisted resource spec says %q: the pod event handler records these CPUs as exclusive",
+					c.pod.name, sp.QoS, c.node, c.alloc, c.real.CPUExclusivePolicy, spec.PreferredCPUExclusivePolicy)
+			}
+			spec.PreferredCPUExclusivePolicy = apiext.CPUExclusivePolicy(c.real.CPUExclusivePolicy)
+		}
+	}
 	if err != nil || string(spec.PreferredCPUExclusivePolicy) != string(c.real.CPUExclusivePolicy) {
 		s.r.Fail("persisted-vs-allocation", "exclusive-policy", "pod %s on %s: allocation recorded with exclusive policy %q, the persisted resource spec says %q (err %v)", c.pod.name, c.node, c.real.CPUExclusivePolicy, spec.PreferredCPUExclusivePolicy, err)
 	}
@@ -2635,6 +2940,13 @@ func (s *nvSim) nrtObj(nd *nvNode) *nrtv1alpha1.NodeResourceTopology {
 		}
 		ann[apiext.AnnotationNodeReservation] = string(rb)
 	}
+	if t.NPol == nvKubeletFullPCPUs {
+		kb, err := json.Marshal(nvKubeletPolicy())
+		if err != nil {
+			s.r.HarnessFail("marshal kubelet CPU manager policy: %v", err)
+		}
+		ann[apiext.AnnotationKubeletCPUManagerPolicy] = string(kb)
+	}
 	nrt := &nrtv1alpha1.NodeResourceTopology{ObjectMeta: metav1.ObjectMeta{Name: nd.name, Annotations: ann, ResourceVersion: "1"}}
 	for n := 0; n < t.numNodes(); n++ {
 		zone := nrtv1alpha1.Zone{Name: fmt.Sprintf("node-%d", n), Type: "Node"}
@@ -2670,6 +2982,8 @@ func (s *nvSim) nvCheckOptions(node string, t *nvTopo, got TopologyOptions) {
 		bad = "reserved CPUs"
 	case got.MaxRefCount != want.MaxRefCount:
 		bad = "MaxRefCount"
+	case apiext.GetNodeCPUBindPolicy(nil, got.Policy) != apiext.GetNodeCPUBindPolicy(nil, want.Policy):
+		bad = "kubelet CPU manager policy"
 	case len(got.NUMANodeResources) != len(want.NUMANodeResources):
 		bad = "NUMA node resources size"
 	}
@@ -2800,7 +3114,9 @@ func nvSortedHolders(m map[string]nvHolder) []string {
 }
 
 // compareLedger: the NodeAllocation `na` (nil = no entry = empty) must be exactly the ledger the holders imply.
-func (s *nvSim) compareLedger(oracle, class, what, node string, na *NodeAllocation, want *nvLedger, t *nvTopo) {
+// exclRelaxed: pods (uid) whose exclusive policy is not compared (the live record of a pod of the history class
+// nvTagExclOther carries no exclusive policy until the pod's next update event; nil for the comparison with the store).
+func (s *nvSim) compareLedger(oracle, class, what, node string, na *NodeAllocation, want *nvLedger, t *nvTopo, exclRelaxed map[string]bool) {
 	r := s.r
 	r.OracleEval()
 	var pods map[types.UID]PodAllocation
@@ -2826,7 +3142,12 @@ func (s *nvSim) compareLedger(oracle, class, what, node string, na *NodeAllocati
 		if d := nvNumaDiff(h.alloc.numa, g.numa); d != "" {
 			fail("pod-numa-amount", "pod %s holds %s, rebuilt as %s (%s)", h.name, h.alloc, g, d)
 		}
-		if g.excl != h.alloc.excl {
+		if g.excl != h.alloc.excl && exclRelaxed[uid] {
+			r.Probe("c19:exclusive-policy-of-a-pod-that-is-not-lse-lsr-differs(live vs rebuilt)")
+			if s.exclDiff == "" {
+				s.exclDiff = fmt.Sprintf("%s: node %s: pod %s is recorded with exclusive policy %q, rebuilt with %q", what, node, h.name, h.alloc.excl, g.excl)
+			}
+		} else if g.excl != h.alloc.excl {
 			fail("pod-exclusive-policy", "pod %s was allocated with exclusive policy %q, rebuilt with %q", h.name, h.alloc.excl, g.excl)
 		}
 		if pa.Name != h.name || pa.Namespace != "default" {
@@ -2860,9 +3181,9 @@ func (s *nvSim) compareLedger(oracle, class, what, node string, na *NodeAllocati
 			fail("cpu-info", "CPU %d rebuilt as %+v, the topology puts it on socket %d NUMA node %d", c, info, p.socket, p.node)
 		}
 		okPol := false
-		for _, h := range want.pods {
+		for huid, h := range want.pods {
 			for _, hc := range h.alloc.cpus {
-				if hc == c && h.alloc.excl == string(info.ExclusivePolicy) {
+				if hc == c && (h.alloc.excl == string(info.ExclusivePolicy) || exclRelaxed[huid]) {
 					okPol = true
 				}
 			}
@@ -3191,7 +3512,7 @@ func (s *nvSim) fork(trigger string, final bool) {
 		s.nvCheckOptions(n, t, tm2.GetTopologyOptions(n))
 		want := nvDerive(t, expected[n])
 		// (b1) rebuilt == what the API objects say (independent of the live ledger)
-		s.compareLedger("rebuilt-vs-persisted", class, fmt.Sprintf("fork %d after %s, rebuilt ledger vs bound pods of the API store", s.forks, trigger), n, rebuilt[n], want, t)
+		s.compareLedger("rebuilt-vs-persisted", class, fmt.Sprintf("fork %d after %s, rebuilt ledger vs bound pods of the API store", s.forks, trigger), n, rebuilt[n], want, t, nil)
 
 		// (b2) rebuilt == the live ledger restricted to the bound pods
 		if s.liveBad {
@@ -3219,7 +3540,7 @@ func (s *nvSim) fork(trigger string, final bool) {
 				// cannot happen in the generated histories (a bound pod is in the live ledger since Reserve / its add)
 				r.Probe("c19:bound-pod-not-in-live-ledger")
 			} else {
-				s.compareLedger("rebuilt-vs-live", class, fmt.Sprintf("fork %d after %s, rebuilt ledger vs live ledger restricted to bound pods", s.forks, trigger), n, rebuilt[n], nvDerive(t, restricted), t)
+				s.compareLedger("rebuilt-vs-live", class, fmt.Sprintf("fork %d after %s, rebuilt ledger vs live ledger restricted to bound pods", s.forks, trigger), n, rebuilt[n], nvDerive(t, restricted), t, s.exclOther)
 				if extra == 0 && lv != nil && rebuilt[n] != nil {
 					// the live ledger holds exactly the bound pods: the raw per-CPU records must be identical too
 					r.OracleEval()
@@ -3242,6 +3563,22 @@ func (s *nvSim) fork(trigger string, final bool) {
 							}
 							a.ExclusivePolicy, b.ExclusivePolicy = "", ""
 						}
+						for _, huid := range nvSortedHolders(expected[n]) {
+							h := expected[n][huid]
+							if !s.exclOther[huid] || a.ExclusivePolicy == b.ExclusivePolicy {
+								continue
+							}
+							for _, hc := range h.alloc.cpus {
+								if hc == c {
+									// a CPU of a pod of the history class nvTagExclOther: see compareLedger
+									if s.exclDiff == "" {
+										s.exclDiff = fmt.Sprintf("fork %d after %s: node %s CPU %d (held by pod %s): live record %+v, rebuilt record %+v", s.forks, trigger, n, c, h.name, a, b)
+									}
+									a.ExclusivePolicy, b.ExclusivePolicy = "", ""
+									break
+								}
+							}
+						}
 						if a != b {
 							r.Fail("rebuilt-vs-live", "cpu-record/"+class, "fork %d after %s: node %s CPU %d: live record %+v, rebuilt record %+v", s.forks, trigger, n, c, a, b)
 						}
@@ -3254,6 +3591,9 @@ func (s *nvSim) fork(trigger string, final bool) {
 		s.probeAfterRestart(class, trigger, n, rm2, tm2, want)
 	}
 	r.Sample("fork %d after %s: %d nodes, %d pods (%d bound with an allocation), order %s", s.forks, trigger, len(nodeNames), len(podNames), nBound, class)
+	if final && s.exclDiff != "" {
+		r.Fail("persisted-vs-allocation", "exclusive-policy/pod-that-is-not-lse-lsr", "%s", s.exclDiff)
+	}
 	if final && stackedDiff != "" {
 		r.Fail("rebuilt-vs-live", "exclusive-policy-of-stacked-cpu/"+class, "%s", stackedDiff)
 	}
